@@ -252,6 +252,17 @@ AuxMutate(what, fix) ==
            a2 == IF fix = 1 THEN [a1 EXCEPT !.mroot = MerkleRootOf(a1)] ELSE a1
        IN Adversarial([sc EXCEPT !.ct.aux = a2], [op |-> "aux", f |-> what, fix |-> fix])
 
+\* a merge-mined share whose primary coinbase is not an address of this zone, built from scratch by the attacker (own
+\* donor work, coinbase commits to its seal hash) but with a forged template signature
+AuxForeignForged ==
+    /\ GoodSeal /\ sc.kind \in {"sha", "scrypt"}
+    /\ LET ct1 == [sc.ct EXCEPT !.wo["primaryCoinbase"] = 1]
+           a1  == [sc.ct.aux EXCEPT !.commit = SealInput(ct1, sc.fork), !.sig = <<"forged">>]
+           a2  == [a1 EXCEPT !.mroot = MerkleRootOf(a1)]
+           ct2 == [ct1 EXCEPT !.aux = a2]
+       IN Adversarial([sc EXCEPT !.ct = ct2, !.sealed = ct2, !.workedOn = PowInput(sc.kind, ct2, sc.fork)],
+                      [op |-> "aux-foreign", f |-> "sig", fix |-> 1])
+
 \* the seal (nonce, mix, auxPow) of the sealed header is attached to ANOTHER header that differs in field f
 ReuseSealFor(part, f) ==
     /\ GoodSeal
@@ -269,6 +280,7 @@ SealNext ==
        \/ \E f \in BhFields, fix \in {0, 1} : MutateBh(f, fix)
        \/ \E c \in BodyComps, fix \in {0, 1, 2} : SwapBody(c, fix)
        \/ \E w \in {"commit", "coinbase", "branch", "sig", "sigtime", "donor"}, fix \in {0, 1} : AuxMutate(w, fix)
+       \/ AuxForeignForged
        \/ \E p \in {"wo", "bh"}, f \in WoAll \cup BhFields : ReuseSealFor(p, f)
 
 \* ---- C08 as invariants over the case table
@@ -325,7 +337,7 @@ Rate0 == 3   FeeDiv == 4
 Ids == 0 .. Len(blk) - 1
 B(b) == blk[b + 1]
 Genesis == [p |-> 0, ord |-> P, intr |-> 0, t |-> 0, d |-> D0, n |-> <<0, 0, 0>>, gl |-> 0, sl |-> 0, bf |-> 0,
-            pt |-> 0, ptn |-> 0, exp |-> 0, pe |-> <<0, 0, 0>>, pd |-> <<0, 0, 0>>, pu |-> <<0, 0, 0>>, ue |-> 0, e |-> 0]
+            pt |-> 0, ptn |-> 0, exp |-> 0, pe |-> <<0, 0, 0>>, pd |-> <<0, 0, 0>>, pu |-> <<0, 0, 0>>, ue |-> 0, e |-> 0, ed |-> 0]
 
 \* nearest ancestor-or-self that is coincident with context c (the head of chain c when b is the zone head)
 RECURSIVE DomHead(_, _)
@@ -379,12 +391,14 @@ Derive(p, x, dt) ==
                 n |-> <<B(pp).n[P] + 1, B(rp).n[R] + 1, par.n[Z] + 1>>,
                 gl |-> CalcLimit(p, par.gl, GasCeil), sl |-> CalcLimit(p, par.sl, StateCeil), bf |-> CalcFee(p),
                 pt |-> PtOf(p), ptn |-> PtnOf(p), exp |-> B(PtOf(p)).exp,
-                pe |-> <<B(pp).e, B(rp).e, par.e>>,
+                pe |-> <<B(pp).ed, B(rp).ed, par.e>>,
                 pd |-> <<0, IF B(rp).ord < R THEN 0 ELSE DeltaOf(B(rp)), IF par.ord < Z THEN 0 ELSE DeltaOf(par)>>,
                 pu |-> <<0, IF B(rp).ord < R THEN 0 ELSE UDeltaOf(B(rp)), IF par.ord < Z THEN 0 ELSE UDeltaOf(par)>>,
-                ue |-> 0, e |-> 0]
+                ue |-> 0, e |-> 0, ed |-> 0]
         h1  == [h0 EXCEPT !.ord = OrderOf(h0)]
-    IN [h1 EXCEPT !.e = EntropyOf(h1)]
+    \* e: total entropy as the zone chain accounts it; ed: as the dominant chains do.  They differ only by the
+    \* work-share entropy of uncles, which this model does not have (the trace validation feeds both from the code)
+    IN [h1 EXCEPT !.e = EntropyOf(h1), !.ed = EntropyOf(h1)]
 
 \* verifyHeader at every context the header is coincident with; result = name of the first violated rule
 ZoneRules(h) ==
@@ -406,22 +420,23 @@ ZoneRules(h) ==
 RegionRules(h) ==
     LET rp == DomHead(h.p, R) IN
     IF h.t < B(rp).t THEN "time-old"
-    ELSE IF h.pe[R] # B(rp).e THEN "parent-entropy-r"
+    ELSE IF h.pe[R] # B(rp).ed THEN "parent-entropy-r"
     ELSE IF h.pd[R] # (IF B(rp).ord < R THEN 0 ELSE DeltaOf(B(rp))) THEN "parent-delta-r"
     ELSE IF h.pu[R] # (IF B(rp).ord < R THEN 0 ELSE UDeltaOf(B(rp))) THEN "parent-udelta-r"
     ELSE IF h.n[R] # B(rp).n[R] + 1 THEN "number-r"
     ELSE "ok"
 PrimeRules(h) ==
     LET pp == DomHead(h.p, P) IN
-    IF h.pe[P] # B(pp).e THEN "parent-entropy-p"
+    IF h.pe[P] # B(pp).ed THEN "parent-entropy-p"
     ELSE IF h.n[P] # B(pp).n[P] + 1 THEN "number-p"
     ELSE "ok"
 Verify(h) ==
-    LET o == OrderOf(h) IN
-    IF ZoneRules(h) # "ok" THEN ZoneRules(h)
-    ELSE IF o <= R /\ RegionRules(h) # "ok" THEN RegionRules(h)
-    ELSE IF o = P /\ PrimeRules(h) # "ok" THEN PrimeRules(h)
-    ELSE "ok"
+    LET o == OrderOf(h)
+        z == ZoneRules(h) IN
+    IF z # "ok" THEN z
+    ELSE LET r == IF o <= R THEN RegionRules(h) ELSE "ok" IN
+         IF r # "ok" THEN r
+         ELSE IF o = P THEN PrimeRules(h) ELSE "ok"
 
 \* single-field deviations; ctx = the context whose verifyHeader owns the rule
 DevFields == {"time-", "time+", "difficulty", "gasLimit", "stateLimit", "baseFee", "primeTerminusHash", "primeTerminusNumber",
@@ -504,29 +519,35 @@ ExtNext ==
 
 \* ---- C09 as invariants over the block tree
 Blocks == Ids \ {0}
-\* every stored block is exactly what its parent's state derives for some seal and time
+\* every stored block is exactly what its parent's state derives for some seal and time (stated for the newest
+\* block: older ones were the newest in a predecessor state and ancestors never change)
 ChildEqualsDerived ==
-    \A b \in Blocks : \E x \in IntrVals, dt \in DtVals : B(b) = Derive(B(b).p, x, dt)
+    LET b == Len(blk) - 1 IN
+    b > 0 => \E x \in IntrVals, dt \in DtVals : B(b) = Derive(B(b).p, x, dt)
 \* no single-field deviation passes
 DeviationRejected ==
     \A i \in DOMAIN hist : hist[i].op = "deviate" => hist[i].res[1] = "reject"
-\* accumulated entropy strictly increases along every chain (zone parent; by transitivity every ancestor in any context)
+\* accumulated entropy strictly increases along every chain: the zone chain in the zone's accounting, the region and
+\* prime chains in theirs
 EntropyStrictlyIncreases ==
     \A b \in Blocks : /\ B(b).e > B(B(b).p).e
-                      /\ \A c \in {P, R} : B(b).ord <= c => B(b).e > B(DomHead(B(b).p, c)).e
+                      /\ \A c \in {P, R} : B(b).ord <= c => B(b).ed > B(DomHead(B(b).p, c)).ed
 \* the recorded parent entropy of every context the block is coincident with is the entropy of that context's parent
 ParentEntropyRecorded ==
-    \A b \in Blocks : \A c \in {P, R, Z} : B(b).ord <= c => B(b).pe[c] = B(DomHead(B(b).p, c)).e
+    \A b \in Blocks : /\ B(b).pe[Z] = B(B(b).p).e
+                      /\ \A c \in {P, R} : B(b).ord <= c => B(b).pe[c] = B(DomHead(B(b).p, c)).ed
 \* numbers: one more than the context parent, in every context
 NumbersConsecutive ==
     \A b \in Blocks : \A c \in {P, R, Z} : B(b).n[c] = B(DomHead(B(b).p, c)).n[c] + 1
 PrimeTerminusIsLastPrime ==
     \A b \in Blocks : B(b).pt = DomHead(B(b).p, P) /\ B(b).ptn = B(DomHead(B(b).p, P)).n[P]
-\* order: a function of the seal and the recorded deltas - the stored order, a recomputation, and every cached answer agree
+\* order: every answer CalcOrder ever gave for a block (through the cache, without it, after a restart) is the order
+\* the block was stored with
 OrderStable ==
-    /\ \A b \in Blocks : B(b).ord = OrderOf(B(b))
-    /\ \A c \in cache : c[1] \in Blocks => c[2] = OrderOf(B(c[1]))
-    /\ (obs[1] = "order" => obs[2] = OrderOf(B(hist[Len(hist)].b)))
+    /\ \A c \in cache : c[1] \in Blocks => c[2] = B(c[1]).ord
+    /\ (obs[1] = "order" => obs[2] = B(hist[Len(hist)].b).ord)
+\* ... and that order is a function of the seal and the recorded deltas alone
+OrderIsFunctionOfSealAndDeltas == \A b \in Blocks : B(b).ord = OrderOf(B(b))
 \* the lemma behind EntropyStrictlyIncreases: every accepted seal has positive intrinsic entropy
 IntrinsicPositive == \A b \in Blocks : B(b).intr > 0
 
